@@ -7,7 +7,8 @@ afterwards); waiting raises the timeout error at the expiry instant, never earli
 request the waiting thread is itself serving; a synchronous request is an asynchronous one carrying the
 configured timeout.
 
-Only property theorems and non-vacuity examples live here (namespace Rpyc.Props.C15); the model is
+Only property theorems, guards/obligations on generated constants and non-vacuity examples live in namespace
+Rpyc.Props.C15 (corollaries and witnesses follow in Rpyc.Async.C15Aux, not counted); the model is
 RpycModel/Async/Model.lean, helper lemmas and the *definitional* lemmas (one-step unfoldings of the
 transcription: `timeout_finite_iff`, `timeout_deadline`, `infinite_never_expires`, `late_reply_discarded`,
 `reply_accepted_when_pending`, `callback_after_ready_runs_at_once`, `sync_is_async_plus_timeout`,
@@ -134,12 +135,6 @@ theorem callbacks_once_in_order (t0 : Nat) (evs : List Ev) :
     · exact ⟨b, t, c, e⟩
     · rw [hr] at a; cases a
 
-/-- in particular the callbacks that ran are the callbacks registered: same ones, same order, same count -/
-theorem callbacks_each_once (t0 : Nat) (evs : List Ev) (hr : (runs (World.init t0) evs).ar.isReady = true) :
-    (runs (World.init t0) evs).cbLog.map Prod.fst = (regsOf (World.init t0) evs).map Prod.fst := by
-  obtain ⟨_, t, _, h⟩ := (callbacks_once_in_order t0 evs).2 hr
-  rw [h]; simp [List.map_map, Function.comp_def]
-
 /-! ### (2b) callbacks that raise or re-enter  (`callR`: `__call__` alone, any callbacks)
 
 The worlds above take callbacks to return.  `callR` is `__call__` with callbacks that may raise and may
@@ -171,14 +166,6 @@ theorem C15_callbacks : C15_callbacks_clause := by
   rw [callbacks_all_run]
   simp [callR, runAll_spec]
 
-/-- what the clause rests on: with the loop that stops at a raising callback (`allRun = false`) it fails — the
-callback registered after a raising one never runs, although the result is ready, and both stay stored -/
-theorem callbacks_lost_without_all_run :
-    callR false true false 5 [⟨1, true, []⟩, ⟨2, false, []⟩] false 7 = ⟨true, some false, some 7, [(1, 5)], [1, 2], true⟩
-      ∧ callR true true false 5 [⟨1, true, []⟩, ⟨2, false, []⟩] false 7
-          = ⟨true, some false, some 7, [(1, 5), (2, 5)], [], true⟩ := by
-  decide
-
 /-! ### (2c) a callback registered while another thread publishes the reply -/
 
 /-- **obligation on the source** (measured on every run): `add_callback`'s test-and-append and `__call__`'s
@@ -197,31 +184,7 @@ theorem C15_racing_registration : C15_racing_registration_clause := by
   have hs : (addCallback w c).seq = w.seq := by unfold addCallback; split <;> rfl
   simp [addCallbackRace, runs, step, hs]
 
-/-- without the exclusion the clause fails: on a fresh pending request, the callback registered during the
-publication is stored in a result that is already ready and never runs (no log entry) — whereas the serial order
-runs it at the arrival instant -/
-theorem racing_registration_lost_without_exclusion :
-    (addCallbackRace false (World.init 3) 1 false 7).ar.isReady = true
-      ∧ (addCallbackRace false (World.init 3) 1 false 7).ar.callbacks = [1]
-      ∧ (addCallbackRace false (World.init 3) 1 false 7).cbLog = []
-      ∧ (runs (World.init 3) [.addCallback 1, .arrive false 7]).cbLog = [(1, 3)]
-      ∧ ¬ Inv (addCallbackRace false (World.init 3) 1 false 7) := by
-  refine ⟨by decide, by decide, by decide, by decide, ?_⟩
-  intro h
-  have := (h (by decide)).1
-  revert this
-  decide
-
 /-! ### (3) waiting raises the timeout error at the expiry instant -/
-
-/-- the loop of `wait` never needs more iterations than messages in the channel plus two -/
-theorem wait_total (w : World) : (wait w).2 ≠ .fuel := by
-  unfold wait
-  have := waitLoop_fuel (waitFuel w) w (Nat.le_refl _)
-  split
-  · split <;> simp
-  · simp
-  · next h => exact absurd h this
 
 /-- **Timeouts are exact.** If `wait` raises the timeout error then the result has a finite deadline `D`
 (so the timeout was a number ≥ 0), the result is not ready, the clock reads at least `D` — never earlier —
@@ -265,23 +228,6 @@ theorem value_timeout_exact (w : World) (h : (value w).2 = .timeout) :
   obtain ⟨a, _, _, c, d⟩ := timeout_exact w hw
   rw [hv]; exact ⟨a, c, d⟩
 
-/-- with `None` or a negative timeout, waiting never raises the timeout error -/
-theorem no_deadline_no_timeout (w : World) (h : w.ar.ttl.finite = false) : (wait w).2 ≠ .timeout := by
-  intro ht
-  have := (timeout_exact w ht).1
-  rw [h] at this; cases this
-
-/-- `wait` returning normally means the result is ready (so `value` yields its content) -/
-theorem wait_returns_ready (w : World) (h : (wait w).2 = .unit) : (wait w).1.ar.isReady = true := by
-  unfold wait at h ⊢
-  split at h
-  · next w' hl =>
-    split at h
-    · next hr => simp only [hr, if_true]
-    · cases h
-  · cases h
-  · cases h
-
 /-! ### (4) a synchronous request is an asynchronous one carrying the configured timeout -/
 
 /-- so a synchronous request raises the timeout error no earlier than `τ` after it was issued, and exactly
@@ -316,16 +262,6 @@ inbound channel and the busy log: the views are projections of one connection, n
 theorem requests_share_one_connection (t0 : Nat) (es : List MEv) : MAgree (mruns (MWorld.init t0) es) :=
   mruns_agree es _ (MAgree.init t0)
 
-/-- **Independence.** Whatever happens to the other requests, the view of request `k` evolves as a
-single-request run whose events are exactly the events addressed to request `k` plus environment events —
-elapsed time, messages entering the channel, somebody serving: events of request A reach request B only that
-way (and a reply carrying another request's sequence number does nothing to B, `dispatch_foreign`). -/
-theorem other_requests_are_environment (mw : MWorld) (es : List MEv) (k : Nat) (v : World)
-    (hv : mw.views[k]? = some v) :
-    ∃ evs : List Ev, (mruns mw es).views[k]? = some (runs v evs)
-      ∧ ∀ e' ∈ evs, isEnv e' = true ∨ .on k e' ∈ es :=
-  view_after_runs es mw k v hv
-
 /-- so readiness of one request is final whatever is done with the others: waits on them, their replies
 (earlier or later ones, stale ones left over from abandoned requests), their expiry, new requests -/
 theorem multi_ready_final (mw : MWorld) (es : List MEv) (k : Nat) (v : World) (hv : mw.views[k]? = some v)
@@ -359,14 +295,6 @@ theorem multi_expired_final (mw : MWorld) (es : List MEv) (k : Nat) (v : World) 
 State kept elsewhere (on the `Timeout`, the connection, a base class) is not seen by this guard. -/
 theorem slots_are_modelled :
     Gen.Async.slots = ["_callbacks", "_conn", "_is_exc", "_is_ready", "_lock", "_obj", "_ttl"] := by decide
-
-/-- with the *default* configuration (`sync_request_timeout` as found in the source) a synchronous request
-that fails with the timeout error does so no earlier than that many ticks after it was issued -/
-theorem default_sync_timeout (w : World) (h : (syncRequest w Gen.Async.syncRequestTimeout).2 = .timeout) :
-    ∃ t : Int, Gen.Async.syncRequestTimeout = some t ∧ 0 ≤ t
-      ∧ w.now + t.toNat ≤ (syncRequest w Gen.Async.syncRequestTimeout).1.now := by
-  obtain ⟨t, h1, h2, h3, _⟩ := sync_timeout_exact w _ h
-  exact ⟨t, h1, h2, h3⟩
 
 /-! ### re-arming (outside the statement's events, recorded for completeness) -/
 
@@ -459,3 +387,86 @@ example :
   decide +kernel
 
 end Rpyc.Props.C15
+
+/-! ### corollaries, adequacy lemmas and witnesses
+
+Not property theorems and NOT counted (they live outside `Rpyc.Props.C15`): immediate corollaries of the theorems
+above, the fuel-adequacy lemma of `wait`, facts that hold by construction of `mstep`, and the witnesses showing what
+the two measured obligations rest on. -/
+namespace Rpyc.Async.C15Aux
+open Rpyc Rpyc.Async Rpyc.Props.C15
+
+/-- in particular the callbacks that ran are the callbacks registered: same ones, same order, same count -/
+theorem callbacks_each_once (t0 : Nat) (evs : List Ev) (hr : (runs (World.init t0) evs).ar.isReady = true) :
+    (runs (World.init t0) evs).cbLog.map Prod.fst = (regsOf (World.init t0) evs).map Prod.fst := by
+  obtain ⟨_, t, _, h⟩ := (callbacks_once_in_order t0 evs).2 hr
+  rw [h]; simp [List.map_map, Function.comp_def]
+
+/-- the loop of `wait` never needs more iterations than messages in the channel plus two -/
+theorem wait_total (w : World) : (wait w).2 ≠ .fuel := by
+  unfold wait
+  have := waitLoop_fuel (waitFuel w) w (Nat.le_refl _)
+  split
+  · split <;> simp
+  · simp
+  · next h => exact absurd h this
+
+/-- with `None` or a negative timeout, waiting never raises the timeout error -/
+theorem no_deadline_no_timeout (w : World) (h : w.ar.ttl.finite = false) : (wait w).2 ≠ .timeout := by
+  intro ht
+  have := (timeout_exact w ht).1
+  rw [h] at this; cases this
+
+/-- `wait` returning normally means the result is ready (so `value` yields its content) -/
+theorem wait_returns_ready (w : World) (h : (wait w).2 = .unit) : (wait w).1.ar.isReady = true := by
+  unfold wait at h ⊢
+  split at h
+  · next w' hl =>
+    split at h
+    · next hr => simp only [hr, if_true]
+    · cases h
+  · cases h
+  · cases h
+
+/-- with the *default* configuration (`sync_request_timeout` as found in the source) a synchronous request
+that fails with the timeout error does so no earlier than that many ticks after it was issued -/
+theorem default_sync_timeout (w : World) (h : (syncRequest w Gen.Async.syncRequestTimeout).2 = .timeout) :
+    ∃ t : Int, Gen.Async.syncRequestTimeout = some t ∧ 0 ≤ t
+      ∧ w.now + t.toNat ≤ (syncRequest w Gen.Async.syncRequestTimeout).1.now := by
+  obtain ⟨t, h1, h2, h3, _⟩ := sync_timeout_exact w _ h
+  exact ⟨t, h1, h2, h3⟩
+
+/-- what the clause rests on: with the loop that stops at a raising callback (`allRun = false`) it fails — the
+callback registered after a raising one never runs, although the result is ready, and both stay stored -/
+theorem callbacks_lost_without_all_run :
+    callR false true false 5 [⟨1, true, []⟩, ⟨2, false, []⟩] false 7 = ⟨true, some false, some 7, [(1, 5)], [1, 2], true⟩
+      ∧ callR true true false 5 [⟨1, true, []⟩, ⟨2, false, []⟩] false 7
+          = ⟨true, some false, some 7, [(1, 5), (2, 5)], [], true⟩ := by
+  decide
+
+/-- without the exclusion the clause fails: on a fresh pending request, the callback registered during the
+publication is stored in a result that is already ready and never runs (no log entry) — whereas the serial order
+runs it at the arrival instant -/
+theorem racing_registration_lost_without_exclusion :
+    (addCallbackRace false (World.init 3) 1 false 7).ar.isReady = true
+      ∧ (addCallbackRace false (World.init 3) 1 false 7).ar.callbacks = [1]
+      ∧ (addCallbackRace false (World.init 3) 1 false 7).cbLog = []
+      ∧ (runs (World.init 3) [.addCallback 1, .arrive false 7]).cbLog = [(1, 3)]
+      ∧ ¬ Inv (addCallbackRace false (World.init 3) 1 false 7) := by
+  refine ⟨by decide, by decide, by decide, by decide, ?_⟩
+  intro h
+  have := (h (by decide)).1
+  revert this
+  decide
+
+/-- **Independence.** Whatever happens to the other requests, the view of request `k` evolves as a
+single-request run whose events are exactly the events addressed to request `k` plus environment events —
+elapsed time, messages entering the channel, somebody serving: events of request A reach request B only that
+way (and a reply carrying another request's sequence number does nothing to B, `dispatch_foreign`). -/
+theorem other_requests_are_environment (mw : MWorld) (es : List MEv) (k : Nat) (v : World)
+    (hv : mw.views[k]? = some v) :
+    ∃ evs : List Ev, (mruns mw es).views[k]? = some (runs v evs)
+      ∧ ∀ e' ∈ evs, isEnv e' = true ∨ .on k e' ∈ es :=
+  view_after_runs es mw k v hv
+
+end Rpyc.Async.C15Aux
